@@ -44,6 +44,10 @@ import (
 //   permutation's batch result.
 //   result   = code:msg;hosts;ifaces;first:last;totals;stats;hitsTotal:displayed;rows
 //   partials = nrows:hitsTotal:displayed:code,...
+//
+// Two more case kinds (`C15 fan …`, `C15 run …`, see c15_fan.go) put the real APIClientQuerier.Query —
+// and the real distributed QueryRunner.Run — in front of the aggregation, against per-host goProbe
+// API endpoints served by httptest servers.
 
 type c15Reply struct {
 	isErr    bool
@@ -341,6 +345,17 @@ func c15ParsePerms(s string, n int) [][]int {
 }
 
 func c15Run(f []string) string {
+	if (f[0] == "fan" && len(f) == 3) || (f[0] == "run" && len(f) == 4) {
+		// the querier's fan-out, see c15_fan.go
+		var replies []c15Reply
+		for _, rs := range splitSemi(f[len(f)-1]) {
+			replies = append(replies, c15ParseReply(rs))
+		}
+		if f[0] == "fan" {
+			return c15RunFan(f[1], replies)
+		}
+		return c15RunDistributed(f[1], f[2], replies)
+	}
 	if f[0] != "agg" || len(f) != 4 {
 		return "bad-op"
 	}
@@ -616,13 +631,15 @@ func c15Gen(r *Rand, tier string) []Case {
 		}
 		cs = append(cs, Case{Line: fmt.Sprintf("C15 agg %s %s %s", cfg, semiField(replies), c15ShowPerms(perms)), Class: cls, NonTrivial: nt && len(perms) >= 2})
 	}
+	// the querier's fan-out in front of the aggregation (own stream, so that the cases above stay as they were)
+	cs = append(cs, c15GenFanCases(NewRand(r.U64()^0xC15FA0), tier)...)
 	return cs
 }
 
 func init() {
 	register(&Prop{
 		ID: "C15",
-		Rule: "seeded sets of 1..5 (sometimes 6..8) per-host replies: error replies (plain / wrapped errors), empty replies, replies with up to 8 rows drawn from a small key pool (overlapping keys across hosts, equal sort values), zero and non-zero time ranges, nil/non-nil statistics, hit totals above the row count, occasionally >100 rows (streaming cap), all 12 sort orders x asc/desc, limits below/at/above the row count, time label + bin sizes 300..3600 s; every set is run through the real aggregateResults in ALL arrival orders when it has <= 5 (thorough: 6) replies, else 24 (200) sampled orders, each order both without a sender and with a recording sse.Sender. Outside-domain classes (two replies under one host name, limit 0) are still compared model vs code. Non-trivial: >= 2 replies, >= 2 arrival orders, at least one reply with rows and (a key shared by two hosts, or an error reply, or an empty reply). Distinct = distinct case lines.",
+		Rule: "seeded sets of 1..5 (sometimes 6..8) per-host replies: error replies (plain / wrapped errors), empty replies, replies with up to 8 rows drawn from a small key pool (overlapping keys across hosts, equal sort values), zero and non-zero time ranges, nil/non-nil statistics, hit totals above the row count, occasionally >100 rows (streaming cap), all 12 sort orders x asc/desc, limits below/at/above the row count, time label + bin sizes 300..3600 s; every set is run through the real aggregateResults in ALL arrival orders when it has <= 5 (thorough: 6) replies, else 24 (200) sampled orders, each order both without a sender and with a recording sse.Sender. Outside-domain classes (two replies under one host name, limit 0) are still compared model vs code. Non-trivial: >= 2 replies, >= 2 arrival orders, at least one reply with rows and (a key shared by two hosts, or an error reply, or an empty reply). Distinct = distinct case lines. PLUS the querier's fan-out (c15_fan.go): seeded host lists of 0..15 hosts in shuffled order (answering hosts with 0..8 rows, hosts without endpoint configuration, hosts answering 422, hosts answering garbage, once per run a host with a closed port; in `fan` cases sometimes one host twice) served by httptest servers on 127.0.0.1, MaxConcurrent cycling through 0, negative (incl. MinInt64), 1, 2, n-1, n, n+3, huge and the constructor's default: `fan` cases drain the result channel of the real APIClientQuerier.Query (timeout 40 s = hang), `run` cases run the real distributed QueryRunner.Run on top of it (12 sort orders descending, limits below/above the row count). Non-trivial there: >= 2 hosts of which >= 1 answers with rows.",
 		Gen: c15Gen,
 		Run: c15Run,
 		Init: func(string) error {
